@@ -122,7 +122,7 @@ func digits(u uint64) []int {
 
 func sdigits(i int64) ([]int, bool) {
 	if i < 0 {
-		return digits(uint64(-(i+1)) + 1), true
+		return digits(uint64(-(i + 1)) + 1), true
 	}
 	return digits(uint64(i)), false
 }
